@@ -9,7 +9,18 @@ def one(ctx, ch0, hist, tag):
     from .. import forest as F
 
     recs = [F.Rec(F.materialise(f, ch0)) for f in ("NM", "LM")]
-    for call, planspec in hist:
+    case0 = {"state": [list(c) for c in ch0], "history": [[F._jsonable(c), F._jsonable(p)] for c, p in hist]}
+    for step, (call, planspec) in enumerate(hist):
+        # the navigation attributes are read on the same objects before every further call, so a memo
+        # kept by one of the mixins goes stale where the other recomputes
+        b0 = B.battery(recs[0].nodes, level=0)
+        b1 = B.battery(recs[1].nodes, level=0)
+        ctx.count("C18.query_values_compared", len(b0))
+        d = B.diff(b0, b1)
+        if d:
+            ctx.violation("C18/queries/%s" % d[0][0].split(".", 1)[-1].split(".")[0], "lockstep-queries", dict(case0, at_step=step),
+                          expected={"NM": F._jsonable(d[0][1:2])}, observed={"LM": F._jsonable(d[0][2:]), "query": d[0][0], "more": [x[0] for x in d[1:]]})
+            return
         for r, f in zip(recs, ("NM", "LM")):
             F.run_call(r, f, call, F.Plan(planspec), snaps_on=False)
     s0, s1 = recs[0].snapshot(), recs[1].snapshot()
